@@ -93,10 +93,17 @@ func StartServer(authOn, cacheGop bool, netTimeout time.Duration) *Server {
 func (s *Server) URL(path string) string { return "rtsp://" + s.Addr + path }
 
 // HTTP performs an HTTP request against the server and returns status and body (body capped).
+// ExtraHTTPHeader, when set, is added to every HTTP request and WebSocket handshake the kit's clients send
+// (hostile clients: headers a normal client never sends).
+var ExtraHTTPHeader http.Header
+
 func (s *Server) HTTP(method, pathAndQuery string, body string) (int, []byte, error) {
 	req, err := http.NewRequest(method, "http://"+s.Addr+pathAndQuery, strings.NewReader(body))
 	if err != nil {
 		return 0, nil, err
+	}
+	for k, v := range ExtraHTTPHeader {
+		req.Header[k] = v
 	}
 	cl := &http.Client{Timeout: 10 * time.Second}
 	resp, err := cl.Do(req)
